@@ -247,7 +247,8 @@ def d4_dependence(ctx, rep):
     fn = gauss.gm_method(ctx, '_get_normal_samples')
     prog = ctx.prog
     draws = [c for c in walk_no_nested(fn.node) if isinstance(c, ast.Call) and prog.resolve(fn.module, c.func) == 'numpy.random.multivariate_normal']
-    rep.floor('D4.cov', 'multivariate normal draws', len(draws), 1)
+    if not draws:
+        rep.undecided('D4.cov', fn, fn.node.name, 'no np.random.multivariate_normal draw found in _get_normal_samples itself', construct='multivariate normal draw')
     from ..idioms import is_none_test
     for c in draws:
         lst = facts.get(('_get_normal_samples', id(c)), [])
